@@ -464,7 +464,7 @@ Op Gen::polygonOp(int fn, int maxCells) {
     uint32_t flags = (uint32_t)r.below(4);
     if (fn == FN_polygonToCells && r.chance(0.6)) flags = 0;
     // malformed variants
-    if (r.chance(0.14)) {
+    if (r.chance(0.2)) {
         switch (r.below(11)) {
             case 0:
                 op.loops.clear();
@@ -480,19 +480,32 @@ Op Gen::polygonOp(int fn, int maxCells) {
                 op.tag += "+2verts";
                 break;
             case 3:
-                op.loops[0][r.below(op.loops[0].size())].lat = NAN;
-                op.tag += "+nan-outer";
-                break;
             case 4:
-                op.loops[0][r.below(op.loops[0].size())].lng =
-                    r.chance(0.5) ? INFINITY : -INFINITY;
-                op.tag += "+inf-outer";
+            case 5: {
+                // one special value in one coordinate of one vertex (or of all
+                // vertices) of the outer loop or of a hole
+                static const double specials[] = {NAN,      INFINITY, -INFINITY, 1e308,  -1e308,
+                                                  100.0,    -100.0,   4.0,       -4.0,   1e-320,
+                                                  -0.0,     1.5707963267948966,  -1.5707963267948966,
+                                                  3.141592653589793, -3.141592653589793};
+                double v = specials[r.below(sizeof specials / sizeof specials[0])];
+                if (r.chance(0.55)) v = specials[r.below(3)];  // NaN and the infinities matter most
+                bool inHole = r.chance(0.3);
+                if (inHole && op.loops.size() < 2) op.loops.push_back(op.loops[0]);
+                std::vector<LatLng> &loop = op.loops[inHole ? 1 : 0];
+                bool lat = r.chance(0.5);
+                bool all = r.chance(0.15);
+                size_t at = r.below(loop.size());
+                for (size_t i = 0; i < loop.size(); i++)
+                    if (all || i == at) (lat ? loop[i].lat : loop[i].lng) = v;
+                char b[64];
+                snprintf(b, sizeof b, "+special-%s-%s%s", inHole ? "hole" : "outer", lat ? "lat" : "lng",
+                         all ? "-all" : "");
+                op.tag += b;
+                if (std::isnan(v)) op.tag += "-nan";
+                if (std::isinf(v)) op.tag += "-inf";
                 break;
-            case 5:
-                if (op.loops.size() < 2) op.loops.push_back(op.loops[0]);
-                op.loops[1][r.below(op.loops[1].size())].lat = NAN;
-                op.tag += "+nan-hole";
-                break;
+            }
             case 6:
                 res = -1 - (int)r.below(2);
                 op.tag += "+res-neg";
@@ -552,6 +565,21 @@ Op Gen::polygonOp(int fn, int maxCells) {
         if (rr == 0) {
             int64_t e = estimate(0);
             (void)e;
+        }
+    }
+    if (fn == FN_polygonToCellsExperimental || fn == FN_maxPolygonToCellsSizeExperimental) {
+        // the legacy estimate fails for unbounded polygons (infinite vertices) while the
+        // iterator-based functions walk the whole grid for them: bound by their own estimate
+        for (;;) {
+            Op sz = op;
+            sz.fn = FN_maxPolygonToCellsSizeExperimental;
+            Result rs = execOp(REF, sz, ExecOpts());
+            int64_t est = 0;
+            if (rs.status == CALL_RETURNED && rs.rc == E_SUCCESS && rs.out.size() >= 8)
+                memcpy(&est, rs.out.data(), 8);
+            if (est <= (int64_t)maxCells * 8 || op.ints[0] <= 0 || op.ints[0] > 15) break;
+            op.ints[0]--;
+            if (op.tag.find("+coarsened") == std::string::npos) op.tag += "+coarsened";
         }
     }
     if (fn == FN_polygonToCellsExperimental) {
@@ -799,7 +827,8 @@ Op Gen::anyOp(int scale) {
         case FN_latLngToCell: {
             LatLng g = randPoint();
             if (r.chance(0.3)) g = centerOf(anyCell());
-            if (r.chance(0.05)) g.lat = r.chance(0.5) ? NAN : INFINITY;
+            if (r.chance(0.05)) g.lat = r.chance(0.5) ? NAN : (r.chance(0.5) ? INFINITY : -INFINITY);
+            if (r.chance(0.03)) g.lng = r.chance(0.5) ? NAN : INFINITY;
             if (r.chance(0.05)) g.lng = r.uniform(-20, 20);
             op.dbls = {g.lat, g.lng};
             op.ints = {resArg()};
